@@ -423,12 +423,12 @@ TYPE_CALLS = {k: v for k, v in BUILTINS.items() if isinstance(k, type)}
 
 
 def call_builtin(I, f, args, kwargs):
-    h = BUILTINS.get(f)
-    if h is not None:
-        return h(I, *args, **kwargs)
     m = I.env.fn_models.get(f)
     if m is not None:
         return m(I, *args, **kwargs)
+    h = BUILTINS.get(f)
+    if h is not None:
+        return h(I, *args, **kwargs)
     # pure python callables on fully concrete arguments may be run natively
     if I.env.native_ok(f) and not any(_has_sym(I, a) for a in list(args) + list(kwargs.values())):
         try:
